@@ -565,8 +565,12 @@ Lemma upd_x_spec s tIn tOut L r sm c :
 Proof.
   unfold g3__updateParameters_x, g3__updateParameters_pre, g3__updateParameters.
   split; intro H;
-  repeat match goal with |- context [Rlt_dec ?a ?b] => destruct (Rlt_dec a b) end;
-  cbv beta iota zeta; try reflexivity; exfalso; unfold Rgt in *; tauto.
+  repeat match goal with
+         | |- context [Rlt_dec ?a ?b] => destruct (Rlt_dec a b)
+         | |- context [Rle_dec ?a ?b] => destruct (Rle_dec a b)
+         end;
+  cbv beta iota zeta; cbn [negb andb orb]; try reflexivity; exfalso; unfold Rgt, Rge in *;
+  first [tauto | (apply H; repeat split; lra) | (decompose [and] H; lra)].
 Qed.
 
 Lemma upd_params_id (c : cache g3_st) : upd_params (fun _ => params c) c = c.
@@ -1068,3 +1072,23 @@ Proof.
   repeat split; try lra.
 Qed.
 Print Assumptions mgr_buildGrid_admissible.
+
+(** ... hence an EOM._updateGrid call on a grid with 0 < smoothing, 0 < ratio < 1 is never
+    rejected: it is the modelled changePositionFalloffScale with the extracted arguments (the
+    solver's histories are histories of accepted calls) *)
+Theorem eom_updateGrid_never_rejected : forall e3 c mfp inc v L w,
+  0 < L -> 0 < g3_smoothing (params c) -> 0 < g3_ratioPointsWall (params c) < 1 ->
+  let ee := {| eom_meanFreePathScale := mfp; eom_includeOffEq := inc;
+               eom_smoothing := g3_smoothing (params c);
+               eom_ratioPointsWall := g3_ratioPointsWall (params c) |} in
+  let '(ti, to, l, c') := eom_args ee v L w in
+  g3_changePositionFalloffScale_x e3 c ti to l c' =
+  (g3_changePositionFalloffScale e3 c ti to l c', true).
+Proof.
+  intros e3 c mfp inc v L w HL Hs Hr ee.
+  pose proof (eom_updateGrid_admissible ee v L w HL Hs Hr) as H.
+  destruct (eom_args ee v L w) as [[[ti to] l] c'].
+  destruct H as (Hpre & _ & _).
+  apply (proj1 (changePos_x_spec e3 c ti to l c')). exact Hpre.
+Qed.
+Print Assumptions eom_updateGrid_never_rejected.
